@@ -9,7 +9,7 @@
 //!  * parser: an independent recursive-descent reference parser (`RefParser`) – Ok/Err and the AST;
 //!    redundant parentheses / whitespace renderings of one AST must all parse to that AST;
 //!  * hop predicates: `parse(to_string(p)) == p`;
-//!  * lexer: spans slice the input to the token text, nothing but skipped whitespace is lost;
+//!  * lexer: spans slice the input to the token text, nothing but whitespace (char::is_whitespace) is lost;
 //!  * no panic anywhere.
 use std::collections::HashMap;
 
@@ -222,7 +222,7 @@ fn render_policy(es: &[Ast], rng: &mut Option<&mut Rng>) -> String {
         let ws: String = match rng {
             Some(r) => {
                 let n = if both_pred { r.range(1, 2) } else { r.below(3) };
-                (0..n).map(|_| *r.pick(&[' ', ' ', '\t', '\n'])).collect()
+                (0..n).map(|_| *r.pick(&[' ', ' ', '\t', '\n', '\r', '\u{a0}', '\u{c}', '\u{2003}'])).collect()
             }
             None => {
                 let tight = prev.is_none() || t == "?" || t == "+" || t == "*" || t == ")" || prev.as_deref() == Some("(");
@@ -288,8 +288,8 @@ fn lang_oracle(es: &[Ast], hs: &[Hop]) -> bool {
 }
 
 /// reference tokeniser for the *documented* lexical structure: operators `| ? + * ( )` (and the reserved
-/// `! &`), whitespace = space / tab / newline, anything else up to the next operator or whitespace is a
-/// hop predicate.
+/// `! &`), whitespace separates tokens and is otherwise ignored, anything else up to the next operator or
+/// whitespace is a hop predicate.
 #[derive(Clone, PartialEq, Eq, Debug)]
 enum RTok {
     P(String),
@@ -300,15 +300,11 @@ fn ref_lex(s: &str) -> Vec<RTok> {
     let mut cur = String::new();
     for c in s.chars() {
         if "!&|()+?*".contains(c) || c.is_whitespace() {
-            // NB: a non-ASCII / unusual whitespace character inside a pattern is outside the documented
-            // grammar; the implementation starts a (then invalid) predicate with it – mirrored here.
             if !cur.is_empty() {
                 out.push(RTok::P(std::mem::take(&mut cur)));
             }
-            if "!&|()+?*".contains(c) {
+            if !c.is_whitespace() {
                 out.push(RTok::Sym(c));
-            } else if !(c == ' ' || c == '\t' || c == '\n') {
-                cur.push(c);
             }
         } else {
             cur.push(c);
@@ -814,7 +810,7 @@ impl Ctx {
                 for t in &toks[..toks.len().saturating_sub(1)] {
                     let (lo, hi) = t.span;
                     let text = s.get(lo..hi);
-                    let gap_ok = lo >= pos && s.get(pos..lo).map(|g| g.chars().all(|c| c == ' ' || c == '\t' || c == '\n')).unwrap_or(false);
+                    let gap_ok = lo >= pos && s.get(pos..lo).map(|g| g.chars().all(|c| c.is_whitespace())).unwrap_or(false);
                     let text_ok = match (&t.kind, text) {
                         (TokenKind::HopPredicate(p), Some(x)) => p == x && !x.is_empty(),
                         (k, Some(x)) => tok_enc(k) == x,
@@ -823,7 +819,7 @@ impl Ctx {
                     ok &= gap_ok && text_ok;
                     pos = hi;
                 }
-                ok &= s.get(pos..).map(|g| g.chars().all(|c| c == ' ' || c == '\t' || c == '\n')).unwrap_or(false);
+                ok &= s.get(pos..).map(|g| g.chars().all(|c| c.is_whitespace())).unwrap_or(false);
                 if !ok {
                     self.rep.spec_fail("C16:lex:spans", "token spans do not tile the input (up to skipped whitespace)", json!({"input": s, "tokens": lex_line(&toks)}));
                 }
@@ -1443,6 +1439,17 @@ fn main() {
             }
         }
         cx.rep.hit_n(&format!("parser: all strings of <= {n} tokens over 11 symbols"), count);
+        if thorough {
+            let small: Vec<&str> = vec!["1", "&", "|", "(", ")", "?", "+", "*"];
+            let mut c7 = 0u64;
+            for seq in all_seqs(&small, 7).into_iter().filter(|q| q.len() == 7) {
+                let s7 = seq.join(" ");
+                cx.pattern(&s7, None, &[], "parser-exhaustive-7");
+                cx.rep.case(&format!("T|{s7}"), true);
+                c7 += 1;
+            }
+            cx.rep.hit_n("parser: all strings of exactly 7 tokens over 8 symbols", c7);
+        }
         // token level (spans (i,i+1)), with EOI anywhere / missing
         let kinds = [
             TokenKind::HopPredicate("1".into()),
